@@ -31,8 +31,8 @@ CHECKS = {
    technique="deterministic simulation at replica level: seeded operation/delivery/duplication/loss sequences, reference-model and algebraic-law oracles over the recorded history, shrunk replay files",
    ref="6 (C12)"),
  "C01": dict(
-   text="Seeded search over programs of critical sections (1-6 sections x 1-6 operations) bound to drawn mixes of 1-5 REAL resources (archetype local, cell, indexed cell, IncMap, HashMap, InputChan, OutputChan, LocalShared, Persistent on in-memory badger, FileSystem on a simulated disk, TCP mailboxes to/from peer archetypes over a simulated network) running in the real MPCalContext.Run under a simulator-owned scheduler and clock; attempts fail at drawn positions (false await after k operations; any resource refusing its n-th read/write/index/pre-commit; real read time-outs, refused dials, stalls). Every read is compared with a reference model (last committed state + the attempt's own writes; inputs consumed by a failed attempt are offered again in order); emitted outputs, messages delivered to the peer, files and database records are compared with the committed model at the end.",
-   note="Trusted: overlay instrumentation R1-R5; reference models in verif/ulib; kinds not in this mix (relaxed mailboxes, CRDT, 2PC, nested archetype, raft log/channel resources) have their abort/commit atomicity exercised by C06/C11/C13/C16. Known finding recorded: committed TCP-mailbox batches can be reordered across a sender reconnect.",
+   text="Seeded search over programs of critical sections (1-6 sections x 1-6 operations) bound to drawn mixes of 1-5 REAL resources (archetype local, cell, indexed cell, IncMap, HashMap, InputChan, OutputChan, LocalShared, Persistent on in-memory badger, FileSystem on a simulated disk, TCP mailboxes to/from peer archetypes over a simulated network, the CRDT resource with a peer replica that commits and aborts its own increments and judges every value it receives, the 2PC resource with two passive replicas over net/rpc) running in the real MPCalContext.Run under a simulator-owned scheduler and clock; attempts fail at drawn positions (false await after k operations; any resource refusing its n-th read/write/index/pre-commit; real read time-outs, refused dials, stalls). Every read is compared with a reference model (last committed state + the attempt's own writes; inputs consumed by a failed attempt are offered again in order); emitted outputs, messages delivered to the peer, files and database records are compared with the committed model at the end.",
+   note="Trusted: overlay instrumentation R1-R5; reference models in verif/ulib; kinds not in this mix (relaxed mailboxes, nested archetype, raft log/channel resources) have their abort/commit atomicity exercised by C06/C16; contended 2PC and multi-writer CRDT scenarios are C11/C13. Known finding recorded: committed TCP-mailbox batches can be reordered across a sender reconnect.",
    technique="deterministic simulation: seeded programs, fault positions and schedules over overlay-instrumented real resources; per-read reference-model oracle; shrunk, fresh-process-verified replay files",
    ref="6 (C01)"),
  "C06": dict(
@@ -41,22 +41,22 @@ CHECKS = {
    technique="deterministic simulation: seeded schedules, time-outs, latency and buffer pressure over overlay-instrumented real mailboxes; history oracles (FIFO/exactly-once/atomic batches); shrunk replay files",
    ref="6 (C06)"),
  "C07": dict(
-   text="Seeded search over 2-5 archetype contexts sharing 1-4 variables through the real LocalSharedManager (lock time-outs 0-1 s): increment, transfer and unique-value read/write sections in drawn (opposite) orders, failing at drawn positions, pre-empted at every yield and stalled while holding locks. The recorded history of committed sections is checked for strict serializability against a multi-register transaction model with porcupine (outside the simulation), which subsumes lost updates, dirty/non-repeatable reads, effects of aborted sections and conservation; all contexts must finish within a simulated-time bound (no deadlock, time-outs abort instead of blocking).",
+   text="Seeded search over 2-5 archetype contexts sharing 1-4 variables through the real LocalSharedManager (lock time-outs 0-1 s): increment, transfer and unique-value read/write sections in drawn (opposite) orders, failing at drawn positions, pre-empted at every yield and stalled while holding locks. The recorded history of committed sections is checked for strict serializability against a multi-register transaction model with porcupine (outside the simulation), which subsumes lost updates, dirty/non-repeatable reads, effects of aborted sections and conservation; no operation on a shared variable outlives the lock time-out (net of simulator-injected lag), and all contexts must finish within a simulated-time bound (no deadlock, time-outs abort instead of blocking).",
    note="Trusted: overlay instrumentation; porcupine; histories <= 25 sections; porcupine time-outs counted as inconclusive.",
    technique="deterministic simulation: seeded goroutine schedules and stalls over the real lock manager; porcupine strict-serializability check of the recorded history; bounded-progress verdict; shrunk replay files",
    ref="6 (C07)"),
  "C13": dict(
-   text="Seeded search over 2-4 nodes each owning the real NewCRDT resource (broadcaster ticker, merger, net/rpc receiver over a simulated network) with archetypes that write distinct power-of-two increments per attempt, hold sections open across broadcast ticks and incoming merges, commit, abort, or abandon the write after aborting; schedules interleave ticks, ReceiveValue calls, merges, writes, commits and aborts. On every read: no update of an aborted attempt, no update of a section still in flight elsewhere, nothing previously read missing; after updates stop every node reads every committed update that was issued while it was reachable, and nothing uncommitted, within 20 broadcast intervals + 2 send time-outs + 1 s.",
+   text="Seeded search over 2-4 nodes each owning the real NewCRDT resource (broadcaster ticker, merger, net/rpc receiver over a simulated network) with archetypes that write distinct power-of-two increments per attempt, hold sections open across broadcast ticks and incoming merges, commit, abort, or abandon the write after aborting; merge-queue capacity 100 or (a third of the runs) 1-2; schedules interleave ticks, ReceiveValue calls, merges, writes, commits and aborts. On every read: no update of an aborted attempt, no update of a section still in flight elsewhere, nothing previously read missing; after updates stop every node reads every committed update that was issued while it was reachable, and nothing uncommitted, within 20 broadcast intervals + 2 send time-outs + 1 s.",
    note="Trusted: overlay instrumentation; GCounter with power-of-two increments as the attributable CRDT value; no resets/partitions injected (property speaks of connected peers); delivery is only required to peers listening before the update's section started.",
    technique="deterministic simulation: seeded schedules over the overlay-instrumented CRDT resource and net/rpc on a simulated network; per-read attribution oracles and bounded-convergence verdict; shrunk replay files",
    ref="6 (C13)"),
  "C11": dict(
-   text="Seeded search over 2-5 nodes each owning the real NewTwoPC resource, with archetypes running concurrent increment sections (some failing after the write), over three transports with the same workload: the in-process LocalReplicaHandle, a simulator message transport calling the peer's exported Receive with drawn delay, loss, duplication and reply loss, and the real RPCReplicaHandle (net/rpc + gob) on the simulated network; a minority may be cut off for a window. Invariants at every scheduling point: versions never decrease, one value per version across replicas. At the end: every programmed increment committed within a simulated-time bound (progress), committed increments read 0..K-1 each once (single copy, no lost update), no replica still holds the pre-commit of a proposal that was given up. Two recorded known findings (no retransmission of a lost Commit/Abort once the proposer has moved on) are attributed only when the transport actually dropped such a message to that replica.",
+   text="Seeded search over 2-5 nodes each owning the real NewTwoPC resource, with archetypes running concurrent increment sections (some failing after the write), over three transports with the same workload: the in-process LocalReplicaHandle, a simulator message transport calling the peer's exported Receive with drawn delay, loss, duplication and reply loss, and the real RPCReplicaHandle (net/rpc + gob) on the simulated network; a minority may be cut off for a window. Invariants at every scheduling point: versions never decrease, one value per version across replicas, a replica that has processed a proposer's Abort does not hold that proposer's older pre-commit. At the end: every programmed increment committed within a simulated-time bound (progress), committed increments read 0..K-1 each once (single copy, no lost update), no replica still holds the pre-commit of a proposal that was given up. Two recorded known findings (no retransmission of a lost Commit/Abort once the proposer has moved on) are attributed only when the transport actually dropped such a message to that replica.",
    note="Trusted: overlay instrumentation R1-R7 (R7: strictly increasing time.Now under the frozen fake clock); replica state read through an overlay-added accessor at scheduling points; cut-off windows <= 2 s because the uncapped exponential back-off otherwise exceeds any fixed progress bound.",
    technique="deterministic simulation: seeded schedules, message delay/loss/duplication and minority cut-off over the overlay-instrumented 2PC resource on three transports; invariant checks at every step and history oracles; shrunk replay files",
    ref="6 (C11)"),
  "C19": dict(
-   text="Seeded search over every order of monitor start, archetype start, archetype end (normal, error, panic), monitor shutdown or isolation, and detector start, with drawn polling and time-out settings and an optional slow-network phase, using the real Monitor (ListenAndServe, RunArchetype, net/rpc) and SingleFailureDetector over a simulated network and clock. A probe reads every detector several times per interval: after the archetype has ended or its monitor has become unreachable every read past the settling time is TRUE (completeness, for ever within the horizon); while it runs on a reachable monitor with a calm network every read past the settling time is FALSE (accuracy after settling); no read takes longer than 1.5 polling intervals; no detector stays uninitialised; Close returns.",
+   text="Seeded search over every order of monitor start, archetype start, archetype end (normal, error, panic), restart of the same archetype id under the same monitor, monitor shutdown or isolation, and detector start, with drawn polling and time-out settings and an optional slow-network phase, using the real Monitor (ListenAndServe, RunArchetype, net/rpc) and SingleFailureDetector over a simulated network and clock. A probe reads every detector several times per interval: after the archetype has ended or its monitor has become unreachable every read past the settling time is TRUE (completeness, for ever within the horizon); while it runs on a reachable monitor with a calm network every read past the settling time is FALSE (accuracy after settling); no read takes longer than 1.5 polling intervals; no detector stays uninitialised; Close returns.",
    note="Trusted: overlay instrumentation; settling time 2 intervals + 2 time-outs + 5 ms; no task stalls injected; Monitor.Close is not treated as unreachability because established connections stay served.",
    technique="deterministic simulation: seeded event orders, schedules and network phases over the overlay-instrumented failure detector and net/rpc; time-indexed completeness/accuracy oracles on every probe read; shrunk replay files",
    ref="6 (C19)"),
